@@ -49,20 +49,23 @@ def rdMut : Rd Pred.C20.Mut := do
   | 5 => if a < 256 then pure (.delExt a.toUInt8) else Rd.fail
   | _ => Rd.fail
 
-/-- `c20.clone  <packet> <nils> <mut> <onClone>
-      => marshal0 <clone side> <nils> ovPayload ovCsrc ovExtArr ovExtPl
-         <hclone header> hRaw <hnils> hovCsrc hovExtArr hovExtPl <other side> otherMarshal` -/
+/-- `c20.clone  <packet> payloadOffset <nils> <mut> <onClone>
+      => marshal0 <clone side> <nils> clonePO ovPayload ovCsrc ovExtArr ovExtPl
+         <hclone header> hRaw <hnils> hPO hovCsrc hovExtArr hovExtPl <other side> otherMarshal
+         <hclone header after the mutation> hAfterRaw` -/
 def c20clone : Handler :=
   mkHandler
-    (do let p ← rdPacket; let n ← rdNils true; let m ← rdMut; let s ← Rd.bool
-        pure ({ p := p, nils := n, mutn := m, onClone := s } : Pred.C20.Input))
+    (do let p ← rdPacket; let po ← Rd.nat; let n ← rdNils true; let m ← rdMut; let s ← Rd.bool
+        pure ({ p := p, po := po, nils := n, mutn := m, onClone := s } : Pred.C20.Input))
     (do let m0 ← rdBytesRes
-        let c ← rdSide; let cn ← rdNils true
+        let c ← rdSide; let cn ← rdNils true; let cpo ← Rd.nat
         let o1 ← Rd.bool; let o2 ← Rd.bool; let o3 ← Rd.bool; let o4 ← Rd.bool
-        let hc ← rdHeader; let hr ← Rd.u16; let hn ← rdNils false
+        let hc ← rdHeader; let hr ← Rd.u16; let hn ← rdNils false; let hpo ← Rd.nat
         let h1 ← Rd.bool; let h2 ← Rd.bool; let h3 ← Rd.bool
         let ot ← rdSide; let om ← rdBytesRes
-        pure ({ marshal0 := m0, clone := c, cloneNils := cn, ovPayload := o1, ovCsrc := o2, ovExtArr := o3,
+        let ha ← rdHeader; let har ← Rd.u16
+        pure ({ marshal0 := m0, clone := c, cloneNils := cn, clonePO := cpo, hPO := hpo, hAfter := ha,
+                hAfterRaw := har, ovPayload := o1, ovCsrc := o2, ovExtArr := o3,
                 ovExtPl := o4, hclone := hc, hRaw := hr, hNils := hn, hovCsrc := h1, hovExtArr := h2,
                 hovExtPl := h3, other := ot, otherMarshal := om } : Pred.C20.Obs))
     Pred.C20.modelObs
